@@ -36,15 +36,20 @@ pub fn strategy() -> BoxedStrategy<Case> {
         schema_strategy(8, 20),
         query_strategy(vec![Group::Private, Group::Private, Group::Both, Group::Public], false, false),
         dp_small_strategy(),
-        prop::sample::select(vec![2.0, 5.0, 20.0, 100.0, 1000.0]),
-        prop::sample::select(vec![1e-6, 1e-3, 0.1]),
+        prop::sample::select(vec![2.0, 5.0, 20.0, 100.0, 1000.0, 2.0, 20.0, 1e-300]),
+        prop::sample::select(vec![1e-6, 1e-3, 0.1, 1e-6, 1e-3, 0.1, 1e-12, 1e-15, 1e-18, 1e-21, 0.0]),
         1u8..7,
         0u8..3,
         any::<u16>(),
+        prop::sample::select(vec![0u64, 0, 0, 0, 0, 0, 0, 1_000, 1_000_000, u64::MAX]),
     )
-        .prop_map(|(mut schema, mut q, mut dp, eps, delta, key_modulus, rng, u)| {
+        .prop_map(|(mut schema, mut q, mut dp, eps, delta, key_modulus, rng, u, huge_groups)| {
             dp.epsilon = eps;
             dp.delta = delta;
+            // "cap disabled" configurations
+            if huge_groups > 0 {
+                dp.max_groups = huge_groups;
+            }
             // units are identified by data and every order has an owner
             schema.dangling = false;
             if schema.pu_variant % 4 == 2 {
@@ -61,7 +66,12 @@ pub fn strategy() -> BoxedStrategy<Case> {
 /// tau required by (epsilon, delta): 1 + sigma * Phi^-1((1-delta)^(1/Cu)), sigma calibrated to sensitivity sqrt(Cu)
 pub fn tau_required(eps: f64, delta: f64, cu: f64) -> f64 {
     let sigma = classical_multiplier(eps, delta) * cu.sqrt();
-    1.0 + sigma * phi_inv((1.0 - delta).powf(1.0 / cu))
+    // upper-tail probability q = 1 - (1-delta)^(1/Cu), computed without cancellation; Phi^-1(1-q) = -Phi^-1(q)
+    let q = -((-delta).ln_1p() / cu).exp_m1();
+    if !(q > 0.0) {
+        return f64::INFINITY;
+    }
+    1.0 - sigma * phi_inv(q)
 }
 
 fn unit_expr(from: From_) -> &'static str {
@@ -305,7 +315,7 @@ pub fn run(ctx: &Ctx, findings: &Findings) -> Report {
         "units per key are recomputed from the original FROM/WHERE with COUNT(DISTINCT unit); the oracle is one-directional (released => enough units), with a b-matching for the per-unit group cap".into(),
         "required tau = 1 + sqrt(Cu) * sqrt(2 ln(1.25/delta_s)) / epsilon_s * Phi^-1((1-delta_s)^(1/Cu)) for the share (epsilon_s, delta_s) = share * (epsilon, delta)".into(),
     ];
-    rep.legs.push(search(ctx, "C04", "key_release", ctx.cases(5_000, 25), findings, strategy, check));
+    rep.legs.push(search(ctx, "C04", "key_release", ctx.cases(9_000, 20), findings, strategy, check));
     rep.require_class("threshold_literals", 1_500);
     rep.require_class("some_private_key_released", 300);
     rep.require_class("some_private_key_withheld", 500);
